@@ -5,7 +5,7 @@ OUT=/verif/build/C19/mut; mkdir -p $OUT
 apply() { # name, python-expr file edits
   d=$(mktemp -d); cp -r /repo/include $d/
   python3 - "$d" "$1" <<'PY'
-import sys,re
+import sys,re,os
 d,name=sys.argv[1],sys.argv[2]
 row=d+'/include/momo/DataRow.h'; tab=d+'/include/momo/DataTable.h'
 def sub(path,old,new,count=1):
@@ -52,6 +52,12 @@ elif name=='M11_move_ctor_keeps_raw':
 			row.mFreeRaws = nullptr;''','''			row.mFreeRaws = nullptr;''')
 elif name=='M12_row_gets_private_head':
     sub(tab,'return RowProxy(&GetColumnList(), raw, &mCrew.GetFreeRaws());','static FreeRaws other(nullptr);\n\t\treturn RowProxy(&GetColumnList(), raw, &other);')
+elif name in ('SA_link_not_refreshed_after_failed_cas','SB_relaxed_exchange'):
+    import subprocess
+    pf='/tmp/seed-out/C19/%s/patch.diff' % ('a' if name.startswith('SA') else 'b')
+    pf2=os.path.join(os.path.dirname(os.path.abspath('/verif/props/C19/mutants.sh')),'seeded_%s.diff' % ('a' if name.startswith('SA') else 'b'))
+    src=pf if os.path.exists(pf) else pf2
+    subprocess.run(['patch','-p1','-d',d,'-i',src],check=True)
 else:
     raise SystemExit('unknown mutant')
 PY
